@@ -18,7 +18,7 @@ RULE = (
     "schedule / schedule_relative (incl. negative) / schedule_absolute (literal times incl. past and the TestScheduler "
     "harness instants 100/200/1000, or clock+offset), cancel (index modulo the disposables handed out so far), "
     "advance_to (clock+offset: backwards, zero, forwards) / advance_by / sleep (incl. negative) / start / stop; every "
-    "action carries a finite program that schedules (through the scheduler handed to it), cancels, stops and makes re-entrant advance_to(now+k)/advance_by(k)/start() calls (k>0; ignored by the running scheduler, modelled as no-ops), nested to "
+    "action carries a finite program that schedules (through the scheduler handed to it), cancels, stops and makes re-entrant advance_to(now+k)/advance_by(k)/start() calls (k>0; ignored by the running scheduler, modelled as no-ops), cancels its own or an ancestor's handle while running, and may RETURN the handle of an action it scheduled (the scheduler item's handle then owns it: cancelling the parent's handle before, during or after its run cancels the not-yet-run child, transitively), nested to "
     "depth 3. After every command: action log [id, clock at invocation] equals the model's (order = (due, seq); clock at "
     "invocation = max(due, previous clock); cancelled never run; advance_* ran exactly the due set), the clock equals the "
     "model's (target after advance_*/sleep), every observed clock value is >= the previous one, and "
@@ -52,15 +52,39 @@ class _World:
         self.flags = set()
         self.depth = 0
         self.stopped_in_run = False
+        self.stack = []  # ids of the actions currently running (innermost last)
+        self.bodies = []  # per running action: ids of the actions it scheduled so far
+        self.parent = {}  # id -> id of the action that scheduled it (None at top level)
 
     def run_body(self, aid, spec, sched):
+        """Executes the action's program; returns the index of the child handle the action returns (or None)."""
         self.log.append([aid, self.clock()])
         self.depth += 1
+        self.stack.append(aid)
+        self.bodies.append([])
+        ret = None
         try:
             for op in spec:
+                if op[0] == "ret":
+                    mine = self.bodies[-1]
+                    if mine:
+                        ret = mine[op[1] % len(mine)]
+                        self.flags.add("returns-child-handle")
+                    break
                 self.do(op, sched)
         finally:
             self.depth -= 1
+            self.stack.pop()
+            self.bodies.pop()
+        return ret
+
+    def new_id(self):
+        aid = self.nid
+        self.nid += 1
+        self.parent[aid] = self.stack[-1] if self.stack else None
+        if self.bodies:
+            self.bodies[-1].append(aid)
+        return aid
 
     def do(self, op, sched=None):
         k = op[0]
@@ -69,7 +93,17 @@ class _World:
                 self.flags.add("nested-schedule")
             self.schedule(op[1], op[2], op[3], op[4], sched)
         elif k == "cancel":
-            self.cancel(op[1])
+            if self.handles:
+                self.cancel_index(op[1] % len(self.handles))
+        elif k == "canc":  # cancel the handle of the running action itself (up=0) or of an ancestor in the scheduling tree
+            if self.stack:
+                target = self.stack[-1]
+                for _ in range(op[1]):
+                    if self.parent.get(target) is None:
+                        break
+                    target = self.parent[target]
+                self.flags.add("cancel-own-handle-while-running" if target in self.stack else "cancel-ancestor-handle")
+                self.cancel_index(target)
         elif k == "stop":
             if self.depth:
                 self.flags.add("stop-in-action")
@@ -96,11 +130,11 @@ class _Real(_World):
 
     def schedule(self, mode, t, form, spec, sched=None):
         s = sched if sched is not None else self.s
-        aid = self.nid
-        self.nid += 1
+        aid = self.new_id()
 
         def action(scheduler, state=None):
-            self.run_body(aid, spec, scheduler)
+            ret = self.run_body(aid, spec, scheduler)
+            return None if ret is None else self.handles[ret]  # "return scheduler.schedule(next)" idiom
 
         if mode == "now":
             d = s.schedule(action)
@@ -123,9 +157,8 @@ class _Real(_World):
         else:
             s.advance_by(enc_rel(self.kind, op[2], op[3] if op[3] in REL_FORMS else "num"))
 
-    def cancel(self, ref):
-        if self.handles:
-            self.handles[ref % len(self.handles)].dispose()
+    def cancel_index(self, i):
+        self.handles[i].dispose()
 
     def stop(self):
         self.s.stop()
@@ -144,8 +177,7 @@ class _Model(_World):
         return self.m.clock
 
     def schedule(self, mode, t, form, spec, sched=None):
-        aid = self.nid
-        self.nid += 1
+        aid = self.new_id()
         if mode == "now":
             due = self.m.clock
         elif mode == "rel":
@@ -159,14 +191,24 @@ class _Model(_World):
         self.due[aid] = due
         self.handles.append(self.m.schedule_absolute(due, (aid, spec)))
 
-    def cancel(self, ref):
-        if self.handles:
-            e = self.handles[ref % len(self.handles)]
-            if not e.done and not e.cancelled:
-                self.effective_cancels += 1
-                self.flags.add("cancel-from-action" if self.depth else "cancel-top-level")
-                self.dead.add(e.payload[0])
-            e.cancelled = True
+    def cancel_index(self, i):
+        self._dispose(self.handles[i], False)
+
+    def _dispose(self, e, cascaded):
+        """Dispose the handle of entry e.  The handle is a single-assignment holder: it owns the handle the action
+        returned (if any) and disposes it with itself; disposing twice is a no-op."""
+        if e.cancelled:
+            return
+        if not e.done:
+            self.effective_cancels += 1
+            self.flags.add("cancel-from-action" if self.depth else "cancel-top-level")
+            if cascaded:
+                self.flags.add("cancel-reaches-returned-child")
+            self.dead.add(e.payload[0])
+        e.cancelled = True
+        owned, e.owned = e.owned, None
+        if owned is not None:
+            self._dispose(owned, True)
 
     def stop(self):
         self.m.stop()
@@ -179,7 +221,14 @@ class _Model(_World):
 
     def run(self, e):
         aid, spec = e.payload
-        self.run_body(aid, spec, None)
+        ret = self.run_body(aid, spec, None)
+        if ret is not None:
+            child = self.handles[ret]
+            if e.cancelled:  # the item's handle was disposed while (or before) it ran: what it returns is disposed at once
+                self.flags.add("handle-disposed-while-running-owns-child")
+                self._dispose(child, True)
+            else:
+                e.owned = child
 
 
 def _first_diff(a, b):
@@ -381,7 +430,7 @@ def _dec_sched(b, depth):
 def _dec_spec(b, depth):
     ops = []
     for _ in range(b.take(_NOPS)):
-        k = b.take() % 8
+        k = b.take() % 10
         if k < 3 and depth > 0:
             ops.append(_dec_sched(b, depth - 1))
         elif k < 5:
@@ -391,8 +440,12 @@ def _dec_spec(b, depth):
         elif k == 6:
             how = b.take(["to", "by"])
             ops.append(["nadv", how, 1 + b.take() % 6, b.take(ABS_FORMS if how == "to" else REL_FORMS)])
-        else:
+        elif k == 7:
             ops.append(["nstart"])
+        else:
+            ops.append(["canc", 0 if k == 8 else b.take() % 3])
+    if any(op[0] == "sched" for op in ops) and b.take() % 2:
+        ops.append(["ret", b.take() % 3])  # the action returns the handle of one of the actions it scheduled
     return ops
 
 
